@@ -634,6 +634,9 @@ def run_ptm4(it):
 
     if mode == "product-batched":
         cfgs = list(itertools.product(WSPD, WDIR, DPT))  # 48 positions, one call per age factor
+        # positions whose wind or depth is missing: the rule cannot hold there, so every bin is swell and nothing may be lost
+        nan = float("nan")
+        cfgs += [(nan, 45.0, 30.0), (10.0, nan, 30.0), (10.0, 45.0, nan), (nan, nan, nan)]
         E = np.array([sp[k % len(sp)] for k in range(len(cfgs))])
         ctx = Ctx(f, d, E, dtype, "time_site")
         for ag in AGEFAC:
